@@ -33,7 +33,9 @@ ASSUMPTIONS = [
     "rule sets of R rules of the shape described in checks/enginecore.py (condition flag_i == true, one Set action on a flag); saliences ANY i32",
     "wall-clock timeout disabled (config.timeout = None), debug_mode off, analytics/plugins/workflow engine present but unused",
     "dates are opaque totally ordered instants (chrono::DateTime modelled as one integer); the evaluation timestamp is symbolic (execute_at_time) or irrelevant (no dates, execute_with_callback)",
-    "one execute call per history on a fresh engine, after an optional set_agenda_focus; sequences of execute calls and ActivateAgendaGroup actions are outside the claim",
+    "one execute call per history on a fresh engine, after an optional set_agenda_focus; sequences of execute calls, pop/clear focus and workflow scheduling are outside the claim",
+    "a rule's single action is Set flag or ActivateAgendaGroup(G|MAIN) (focus moves at once, mid-pass); lock-on-active is NOT combined with activation actions (the engine re-activates the group again at the end-of-cycle workflow sync, which makes 'once per activation' ambiguous)",
+    "before the engine is built an extra rule may be added at a symbolic position and removed again (stale order/index after removal)",
     "Vec::sort_by is modelled as a stable sort (std documents stability)",
 ]
 
@@ -46,7 +48,7 @@ def sopt(cond, s):
     return opt(cond, S(s))
 
 
-def build(h, R, C, entry):
+def build(h, R, C, entry, extras=True):
     """returns dict with everything the obligations need"""
     ip = h.ip
     vi = {n: i for i, (n, _) in enumerate(ip.enums["Value"])}
@@ -68,6 +70,7 @@ def build(h, R, C, entry):
             "xg": h.bool("in_actgroup_X%d" % i),
             "tj": h.int("target%d" % i, 0, R - 1).v,
             "tv": h.bool("setto%d" % i),
+            "ak": h.int("action_kind%d" % i, 0, 2).v,      # 0 Set flag, 1 ActivateAgendaGroup(G), 2 ActivateAgendaGroup(MAIN)
         }
         if entry == "at_time":
             a["he"] = h.bool("has_effective%d" % i)
@@ -83,7 +86,9 @@ def build(h, R, C, entry):
         tgt = S("flag_%d" % (R - 1))
         for j in range(R - 2, -1, -1):
             tgt = ite(a["tj"] == j, S("flag_%d" % j), tgt)
-        act = En("ActionType", ai["Set"], {ai["Set"]: {"field": tgt, "value": vbool(a["tv"])}})
+        act = En("ActionType", z3.If(a["ak"] == 0, ai["Set"], ai["ActivateAgendaGroup"]),
+                 {ai["Set"]: {"field": tgt, "value": vbool(a["tv"])},
+                  ai["ActivateAgendaGroup"]: {"group": ite(a["ak"] == 1, S("G"), S("MAIN"))}})
         r = ip.deref(h.call("Rule::new", [S("r%d" % i), cg, Vc([act])]))
         f = dict(r.f)
         f["salience"] = a["sal"]
@@ -94,7 +99,25 @@ def build(h, R, C, entry):
         f["activation_group"] = sopt(a["xg"], "X")
         f["date_effective"] = opt(a["he"], dt(a["de"]))
         f["date_expires"] = opt(a["hx"], dt(a["dx"]))
+        if i == 0:
+            rx_pos = h.int("removed_rule_position", 0, R).v     # R = no extra rule
+            rx_sal = h.int("removed_rule_salience", -2**31, 2**31 - 1, "i32")
+        with ip.under(rx_pos == i):
+            fx = dict(r.f)
+            fx["name"] = S("rx")
+            fx["salience"] = rx_sal
+            ip.call("KnowledgeBase::add_rule", [h.ref("kb"), St("Rule", fx)])
         res = ip.deref(ip.call("KnowledgeBase::add_rule", [h.ref("kb"), St("Rule", f)]))
+    with ip.under(rx_pos < R):
+        ip.call("KnowledgeBase::remove_rule", [h.ref("kb"), S("rx")])
+    if not extras:
+        # plain rule sets: Set actions only, no removed rule
+        for a in rules:
+            h.assume(a["ak"] == 0)
+        h.assume(rx_pos == R)
+    any_lock = bor(*[a["lk"] for a in rules])
+    any_act = bor(*[a["ak"] != 0 for a in rules])
+    h.assume(bnot(band(any_lock, any_act)))
     maxc = h.int("max_cycles", 0, C, "usize")
     cfg = St("EngineConfig", {"max_cycles": maxc, "timeout": none(), "enable_stats": False, "debug_mode": False})
     h.let("eng", h.call("RustRuleEngine::with_config", [h.get("kb"), cfg]))
@@ -126,6 +149,7 @@ def build(h, R, C, entry):
     for i in range(R):
         before = [z3.If(z3.Or(rules[j]["sal"].v > rules[i]["sal"].v, z3.And(rules[j]["sal"].v == rules[i]["sal"].v, j < i)), 1, 0) for j in range(R) if j != i]
         pos.append(z3.Sum(before) if before else z3.IntVal(0))
+    focus = focus_g                 # current focus is G? (changes when an ActivateAgendaGroup action runs)
     nl_fired = [False] * R          # no-loop bookkeeping (engine lifetime)
     lk_fired = [False] * R          # lock-on-active: fired since the activation of its group
     ref_log = []                    # (guard, rule index)
@@ -143,7 +167,7 @@ def build(h, R, C, entry):
             for i in range(R):
                 a = rules[i]
                 here = band(run_pass, pos[i] == p)
-                in_focus = zbool(a["ag"]) == zbool(focus_g)
+                in_focus = zbool(a["ag"]) == zbool(focus)
                 indate = band(bor(bnot(a["he"]), now >= a["de"]), bor(bnot(a["hx"]), now < a["dx"])) if entry == "at_time" else True
                 elig = band(a["en"], in_focus, indate, bnot(band(a["lk"], lk_fired[i])), bnot(band(a["xg"], xg_fired)),
                             bnot(band(a["nl"], nl_fired[i])))
@@ -155,14 +179,15 @@ def build(h, R, C, entry):
                 xg_fired = bor(xg_fired, band(fire, a["xg"]))
                 nl_fired[i] = bor(nl_fired[i], band(fire, a["nl"]))
                 lk_fired[i] = bor(lk_fired[i], band(fire, a["lk"]))
-                flags = [ite(band(fire, a["tj"] == j), a["tv"], flags[j]) for j in range(R)]
+                flags = [ite(band(fire, a["ak"] == 0, a["tj"] == j), a["tv"], flags[j]) for j in range(R)]
+                focus = ite(band(fire, a["ak"] == 1), True, ite(band(fire, a["ak"] == 2), False, focus))
         stopped = bor(stopped, band(run_pass, bnot(any_fired)))
         passes_info.append((run_pass, any_fired))
     # eligibility on the final facts (for the fixpoint statement)
     final_elig_true = []
     for i in range(R):
         a = rules[i]
-        in_focus = zbool(a["ag"]) == zbool(focus_g)
+        in_focus = zbool(a["ag"]) == zbool(focus)
         indate = band(bor(bnot(a["he"]), now >= a["de"]), bor(bnot(a["hx"]), now < a["dx"])) if entry == "at_time" else True
         elig = band(a["en"], in_focus, indate, bnot(band(a["lk"], lk_fired[i])), bnot(band(a["nl"], nl_fired[i])))
         final_elig_true.append(band(elig, flags[i]))
@@ -189,12 +214,14 @@ def decode_rules(m, R, entry):
     for i in range(R):
         r = {"name": "r%d" % i, "salience": m["sal%d" % i], "enabled": m["enabled%d" % i], "no_loop": m["noloop%d" % i],
              "lock_on_active": m["lock%d" % i], "agenda_group": "G" if m["in_group_G%d" % i] else None,
-             "activation_group": "X" if m["in_actgroup_X%d" % i] else None, "action": ["flag_%d" % m["target%d" % i], m["setto%d" % i]]}
+             "activation_group": "X" if m["in_actgroup_X%d" % i] else None, "action": ["flag_%d" % m["target%d" % i], m["setto%d" % i]],
+             "action_kind": ["set", "activate_G", "activate_MAIN"][m["action_kind%d" % i]]}
         if entry == "at_time":
             r["date_effective"] = m["effective%d" % i] if m["has_effective%d" % i] else None
             r["date_expires"] = m["expires%d" % i] if m["has_expires%d" % i] else None
         rs.append(r)
     t = {"entry": entry, "rules": rs, "max_cycles": m["max_cycles"], "focus": "G" if m["focus_on_G"] else "MAIN",
+         "removed_rule": ({"position": m["removed_rule_position"], "salience": m["removed_rule_salience"]} if m["removed_rule_position"] < R else None),
          "flags": [m["flag%d" % i] for i in range(R)]}
     if entry == "at_time":
         t["now"] = m["now"]
@@ -205,20 +232,27 @@ def replay_source(t):
     R = len(t["rules"])
     adds = []
     for r in t["rules"]:
+        actsrc = {"set": 'ActionType::Set { field: "%s".to_string(), value: Value::Boolean(%s) }' % (r["action"][0], str(r["action"][1]).lower()),
+                  "activate_G": 'ActionType::ActivateAgendaGroup { group: "G".to_string() }',
+                  "activate_MAIN": 'ActionType::ActivateAgendaGroup { group: "MAIN".to_string() }'}[r.get("action_kind", "set")]
         b = ('Rule::new("%s".to_string(), ConditionGroup::single(Condition::new("flag_%s".to_string(), Operator::Equal, Value::Boolean(true))), '
-             'vec![ActionType::Set { field: "%s".to_string(), value: Value::Boolean(%s) }]).with_salience(%d)'
-             % (r["name"], r["name"][1:], r["action"][0], str(r["action"][1]).lower(), r["salience"]))
+             'vec![%s]).with_salience(%d)' % (r["name"], r["name"][1:], actsrc, r["salience"]))
+        if t.get("removed_rule") and t["removed_rule"]["position"] == int(r["name"][1:]):
+            adds.append('kb.add_rule(Rule::new("rx".to_string(), ConditionGroup::single(Condition::new("flag_0".to_string(), Operator::Equal, Value::Boolean(true))), vec![]).with_salience(%d)).unwrap();' % t["removed_rule"]["salience"])
         adds.append("{ let mut r = %s; r.enabled = %s; r.no_loop = %s; r.lock_on_active = %s; r.agenda_group = %s; r.activation_group = %s; %s %s kb.add_rule(r).unwrap(); }" % (
             b, str(r["enabled"]).lower(), str(r["no_loop"]).lower(), str(r["lock_on_active"]).lower(),
             'Some("G".to_string())' if r["agenda_group"] else "None", 'Some("X".to_string())' if r["activation_group"] else "None",
             ("r.date_effective = Some(at(%d));" % r["date_effective"]) if r.get("date_effective") is not None else "",
             ("r.date_expires = Some(at(%d));" % r["date_expires"]) if r.get("date_expires") is not None else ""))
-    meta = ", ".join("(%d, %s, %s, %s, %s, %s, %d, %s, %s, %s)" % (
+    if t.get("removed_rule"):
+        adds.append('kb.remove_rule("rx").unwrap();')
+    meta = ", ".join("(%d, %s, %s, %s, %s, %s, %d, %s, %s, %s, %d)" % (
         r["salience"], str(r["enabled"]).lower(), str(r["no_loop"]).lower(), str(r["lock_on_active"]).lower(),
         str(bool(r["agenda_group"])).lower(), str(bool(r["activation_group"])).lower(), int(r["action"][0].split("_")[1]),
         str(r["action"][1]).lower(),
         ("Some(%d)" % r["date_effective"]) if r.get("date_effective") is not None else "None",
-        ("Some(%d)" % r["date_expires"]) if r.get("date_expires") is not None else "None") for r in t["rules"])
+        ("Some(%d)" % r["date_expires"]) if r.get("date_expires") is not None else "None",
+        {"set": 0, "activate_G": 1, "activate_MAIN": 2}[r.get("action_kind", "set")]) for r in t["rules"])
     run = ("let res = eng.execute_with_callback(&facts, |n, _| log.push(n.to_string())).unwrap();" if t["entry"] == "callback"
            else "let res = eng.execute_at_time(&facts, at(%d)).unwrap();" % t.get("now", 0))
     return """
@@ -241,7 +275,8 @@ fn main() {
     let mut log: Vec<String> = Vec::new();
     %s
     // reference ------------------------------------------------------------------
-    let meta: Vec<(i32, bool, bool, bool, bool, bool, usize, bool, Option<i64>, Option<i64>)> = vec![%s];
+    let meta: Vec<(i32, bool, bool, bool, bool, bool, usize, bool, Option<i64>, Option<i64>, u8)> = vec![%s];
+    let mut focus = focus_g;
     let now: i64 = %d; let use_dates = %s;
     let mut order: Vec<usize> = (0..meta.len()).collect();
     order.sort_by(|a, b| meta[*b].0.cmp(&meta[*a].0).then(a.cmp(b)));
@@ -255,10 +290,10 @@ fn main() {
         for &i in &order {
             let m = meta[i];
             let indate = !use_dates || (m.8.map_or(true, |e| now >= e) && m.9.map_or(true, |x| now < x));
-            let elig = m.1 && (m.4 == focus_g) && indate && !(m.3 && lk[i]) && !(m.5 && xg) && !(m.2 && nl[i]);
+            let elig = m.1 && (m.4 == focus) && indate && !(m.3 && lk[i]) && !(m.5 && xg) && !(m.2 && nl[i]);
             if !elig { continue; }
             evaluated += 1;
-            if flags[i] { want.push(format!("r{}", i)); any = true; if m.5 { xg = true; } if m.2 { nl[i] = true; } if m.3 { lk[i] = true; } flags[m.6] = m.7; }
+            if flags[i] { want.push(format!("r{}", i)); any = true; if m.5 { xg = true; } if m.2 { nl[i] = true; } if m.3 { lk[i] = true; } if m.10 == 0 { flags[m.6] = m.7; } else { focus = m.10 == 1; } }
         }
         if !any { break; }
     }
